@@ -408,12 +408,9 @@ type batchOpts struct {
 func (g *gen) batch(o batchOpts) *NodeSpec {
 	n := &NodeSpec{ID: len(g.sc.Nodes), Kind: "batch"}
 	n.Styles = string([]byte{'R', pick(g.r, []byte("RA")), 'R'})
-	// only the C19 profile attaches batch functions through constructor options
-	// (the other properties do not speak about configuration styles)
-	n.FnForm = "builder"
-	if g.sc.Prop == "C19" {
-		n.FnForm = pick(g.r, []string{"opt", "builder"})
-	}
+	// batch functions come through builder methods or constructor options (the
+	// option form was restricted to the C19 profile while defect D4 was open)
+	n.FnForm = pick(g.r, []string{"opt", "builder", "builder"})
 	if g.chance(0.3) {
 		n.Hand = true
 		n.FnForm = ""
@@ -423,7 +420,7 @@ func (g *gen) batch(o batchOpts) *NodeSpec {
 		}
 		n.PrepShape = pick(g.r, shapes)
 	}
-	n.HasFb = (n.Hand || g.sc.Prop == "C19") && g.chance(0.5)
+	n.HasFb = g.chance(0.5)
 	budget := g.budget()
 	if budget > 4 {
 		budget = 1 + g.r.IntN(4)
@@ -479,6 +476,8 @@ func (g *gen) batch(o batchOpts) *NodeSpec {
 				fo := g.outcome()
 				if fo.Fail != "" {
 					fo.Both = g.chance(0.4)
+				} else if g.chance(0.15) {
+					fo.Pay = "result" // the fallback answers with a flyt.Result of its own
 				}
 				it.Fb = &fo
 			}
@@ -488,9 +487,6 @@ func (g *gen) batch(o batchOpts) *NodeSpec {
 			vs.Items = append(vs.Items, it)
 		}
 		vs.Post = Outcome{Action: pick(g.r, g.actions)}
-		if ni == 0 && vs.Post.Action == "" && g.sc.Prop != "C18" {
-			vs.Post.Action = "default" // the empty action of an empty batch is C18's subject only
-		}
 		if g.chance(g.failP * 0.3) {
 			vs.Post.Fail = pick(g.r, failKinds)
 		}
@@ -787,8 +783,12 @@ func (g *gen) rootBatch(ni, budget, wait, conc int, stop bool, shapes []string) 
 		}
 		n.HasFb = g.chance(0.7)
 	}
+	if !n.Hand && g.chance(0.3) {
+		n.FnForm = "opt" // exec function and fallback given as constructor options
+		n.HasFb = g.chance(0.5)
+	}
 	setBatchConfig(g, n, budget, wait, conc, stop)
-	vs := Visit{Post: Outcome{Action: pick(g.r, []string{"default", "a", "b"})}}
+	vs := Visit{Post: Outcome{Action: pick(g.r, []string{"default", "a", "b", ""})}}
 	for i := 0; i < ni; i++ {
 		it := Item{Pay: pick(g.r, []string{"int", "str", "map", "ptr", "struct", "slice"})}
 		it.Exec = g.execScript(budget, n.style(1) == 'R' && !stop)
@@ -796,6 +796,8 @@ func (g *gen) rootBatch(ni, budget, wait, conc int, stop bool, shapes []string) 
 			fo := g.outcome()
 			if fo.Fail != "" {
 				fo.Both = g.chance(0.4)
+			} else if g.chance(0.15) {
+				fo.Pay = "result"
 			}
 			it.Fb = &fo
 		}
@@ -874,6 +876,25 @@ func genC06(prop, tier string, r *rand.Rand) *Scn {
 	}
 	budget := 1 + r.IntN(2)
 	stop := r.IntN(4) == 0 // positional correspondence holds in either error mode
+	if r.IntN(8) == 0 {
+		// re-entrancy on one goroutine: an item's exec runs the same batch node
+		// object again (a recursive walk), with a shorter item list of its own;
+		// each run's post gets that run's results
+		g.failP = 0
+		k := 2 + r.IntN(5)
+		n := g.rootBatch(k, 1, 0, 0, false, []string{"results", "anys"})
+		n.HasFb = false
+		v1 := Visit{Post: Outcome{Action: "default"}}
+		for i := 1 + r.IntN(k); i > 0; i-- {
+			v1.Items = append(v1.Items, Item{Pay: pick(r, []string{"int", "str", "map"}), Exec: []Outcome{{Pay: g.pay()}}})
+		}
+		for i := range n.Visits[0].Items {
+			n.Visits[0].Items[i] = Item{Pay: pick(r, []string{"int", "str", "map"}), Exec: []Outcome{{Pay: g.pay()}}}
+		}
+		n.Visits[0].Items[r.IntN(k)].Exec[0].Nested = n.ID + 1
+		n.Visits = append(n.Visits, v1)
+		return g.sc
+	}
 	n := g.rootBatch(batchSize(r, 64), budget, pick(r, []int{0, 0, 10}), conc, stop, []string{"results", "anys", "ints", "strings", "single", "nil"})
 	g.timing(n)
 	if r.IntN(7) == 0 && len(n.Visits[0].Items) > 0 {
@@ -908,6 +929,9 @@ func genC07(prop, tier string, r *rand.Rand) *Scn {
 		for i := range n.Visits[0].Items {
 			if g.chance(0.6) {
 				fo := g.outcome()
+				if fo.Fail == "" && g.chance(0.2) {
+					fo.Pay = "result"
+				}
 				n.Visits[0].Items[i].Fb = &fo
 			}
 		}
